@@ -59,6 +59,8 @@ inline Files src_S1() {
 // but stands at another location (a cache keyed by text would serve stale positions)
 inline Files src_S1_shifted() { Files f = src_S1(); Files g; g["lib2"] = "\n\n" + f["lib"]; std::string m = f["main"]; size_t p = m.find("\"lib\""); m.replace(p, 5, "\"lib2\""); g["main"] = "\n" + m; return g; }
 inline Files src_S2() { return {{"main", "x0 := ;\nLOOP x1 DO x2 := RUN nothere WITH 1 END END;\nGOTO nowhere;\nDEFINE <P> AS foo ENDDEF\nx3 := 99999999999\n"}}; }
+// numbers of every size in every numeric position (literal, +/- operand, IF constant, argument, PRIO, $n, #n)
+inline Files src_S4() { return {{"main", "DEFINE PRIO 99999999999999999999 foo <V> AS x9 := $18446744073709551616 ; #9223372036854775808 := 1 ENDDEF\nx0 := 9223372036854775808;\nx1 := x0 + 340282366920938463463374607431768211456;\nla: IF x1 = 18446744073709551615 THEN GOTO la;\nfoo 4294967296\n"}}; }
 inline Files src_S3() { return {{"main", "INCLUDE \"a\"\nINCLUDE \"missing\"\nx0 := RUN f WITH 2 END\n"}, {"a", "INCLUDE \"b\"\nINCLUDE \"a\"\n"}, {"b", "PROGRAM f IN q DO x0 := q + 1 END\n"}}; }
 
 inline std::string op_compile(const Files &f) { Files copy = f; return ser_result(Theo::compile(copy, "main")); }
@@ -74,9 +76,9 @@ inline std::string op_macros() {
   Theo::ScanResult s = Theo::scan(src_S1(), "main"); Theo::MacroExtractionResult m = Theo::extract_macros(s.toks); Theo::MacroApplicationResult a = Theo::apply_macros(m.tokens, m.macros, 64);
   std::string o; for (auto &t : a.transformed_sequence) o += t.text + "@" + t.file + ":" + std::to_string(t.line) + " "; for (auto &e : a.errors) o += "E" + e.msg; return o;
 }
-static const int NOPS = 8;
-inline const char *op_name(int i) { static const char *n[] = {"compile(S1: loops+macro with temporaries+calls)", "compile(S2: three kinds of errors)", "compile(S3: includes+missing file)", "run VM on S1", "leave a half-run VM with breakpoints alive", "scan(S3)", "extract+apply macros(S1)", "compile(S1 with identical definitions at other lines/files)"}; return n[i]; }
+static const int NOPS = 9;
+inline const char *op_name(int i) { static const char *n[] = {"compile(S1: loops+macro with temporaries+calls)", "compile(S2: three kinds of errors)", "compile(S3: includes+missing file)", "run VM on S1", "leave a half-run VM with breakpoints alive", "scan(S3)", "extract+apply macros(S1)", "compile(S1 with identical definitions at other lines/files)", "compile(S4: out-of-range numbers in every numeric position)"}; return n[i]; }
 inline std::string run_op(int i, std::vector<Theo::VM *> *keep) {
-  switch (i) { case 0: return op_compile(src_S1()); case 1: return op_compile(src_S2()); case 2: return op_compile(src_S3()); case 3: return op_run_vm(); case 4: return op_debug_vm(keep); case 5: return op_scan(); case 6: return op_macros(); default: return op_compile(src_S1_shifted()); }
+  switch (i) { case 0: return op_compile(src_S1()); case 1: return op_compile(src_S2()); case 2: return op_compile(src_S3()); case 3: return op_run_vm(); case 4: return op_debug_vm(keep); case 5: return op_scan(); case 6: return op_macros(); case 7: return op_compile(src_S1_shifted()); default: return op_compile(src_S4()); }
 }
 }  // namespace det
